@@ -76,8 +76,12 @@ Inductive tev : Type :=
 | TAdd (rid : nat) (tbl : string) (f : filter)
 | TRemove (rid : nat)
 | TRead (rid : nat)      (* a live query's function issues its SELECT; rid = the resource this run registered (0 = none yet) *)
-| TProcess (tbl : string) (k : ekind) (rows : list (list src)) (obs_err : bool) (obs : list (nat * bool)).
+| TProcess (tbl : string) (version : string) (k : ekind) (rows : list (list src)) (obs_err : bool) (obs : list (nat * bool)).
+    (* [version] names the version of the table (name#TableID) the event was written under: RunPollLoop drops
+       its cached column map on every TableMapEvent with a new id, so the column map in force is the one
+       information_schema gives for that version *)
 
+(** [lc_tables]: the table metadata per version (name#TableID). *)
 Record lcase : Type := mk_lcase { lc_tables : list (string * tmeta); lc_trace : list tev }.
 
 Fixpoint insert_res (r : resource) (l : list resource) : list resource :=
@@ -98,8 +102,8 @@ Fixpoint replay (e : env) (tabs : list (string * tmeta)) (regs : list resource) 
       (* LiveDB.query registers the dependency before it runs the SELECT: [Read] is only enabled once the
          run's resource is in the tracker *)
       (if existsb (fun r => Nat.eqb (r_id r) rid) regs then [] else [3]) ++ replay e tabs regs tr'
-  | TProcess tbl k rows obs_err obs :: tr' =>
-      match slookup tbl tabs with
+  | TProcess tbl version k rows obs_err obs :: tr' =>
+      match slookup version tabs with
       | None => [9]
       | Some m =>
           match poll_loop_update true e m tbl k rows with
